@@ -166,6 +166,34 @@ func c01Eval(ctx *engine.Ctx, dir string, iss, sub int, chain []int) {
 					"%s denied inv(iss=p%d,sub=p%d,aud=%d) with rule-conforming chain %v: %v", api, iss, sub, aud, c01Describe(chain), e)
 			}
 		}
+		// Histories on one token value: the decision is taken against the loader of *this* call.
+		// After an allowed check, the same token checked with a loader that lost any one of the
+		// referenced delegations must be denied; and a token first denied for a missing
+		// delegation must be allowed once the loader is complete.
+		if e1 == nil && mask == 0 {
+			for drop := range chain {
+				part := &posLoader{byCid: map[cid.Cid]*delegation.Token{}}
+				for k, e := range chain {
+					if k != drop && e != chain[drop] {
+						part.byCid[cidPool[e]] = c01Universe.toks[e]
+					}
+				}
+				ctx.Eval(2)
+				ctx.Trans(2)
+				if err := inv.ExecutionAllowed(part); err == nil {
+					ctx.Failf(mk(), "stale-verdict/allowed-after-delegation-became-unavailable", "inv(iss=p%d,sub=p%d) with chain %v: allowed once, then still allowed by a loader that cannot load proof #%d", iss, sub, c01Describe(chain), drop)
+				}
+				fresh, _ := invocation.New(prin(iss), prin(sub), "/a", prf, opts...)
+				if err := fresh.ExecutionAllowed(part); err == nil {
+					ctx.Failf(mk(), "allowed-despite:missing", "fresh inv(iss=p%d,sub=p%d) allowed by a loader that cannot load proof #%d of %v", iss, sub, drop, c01Describe(chain))
+				} else if err := fresh.ExecutionAllowed(c01Universe.loader); err != nil && dir == "complete" {
+					ctx.Failf(mk(), "stale-verdict/denied-after-delegation-became-available", "inv(iss=p%d,sub=p%d) with chain %v: denied for a missing delegation, then still denied with a complete loader: %v", iss, sub, c01Describe(chain), err)
+				}
+			}
+			if err := inv.ExecutionAllowed(c01Universe.loader); err != nil && dir == "complete" {
+				ctx.Failf(mk(), "verdict-not-repeatable", "inv(iss=p%d,sub=p%d) with chain %v: allowed, then denied on the next identical check: %v", iss, sub, c01Describe(chain), err)
+			}
+		}
 		v := fmt.Sprint(e1 == nil, e2 == nil)
 		if aud == -1 {
 			first = v
